@@ -90,6 +90,17 @@ fn reference(auth: &Value, sender: usize) -> Result<(), (StatusCode, Vec<u8>, Op
                 Err((StatusCode::NotFound, vec![], None))
             }
         }
+        "nested_allowed_peers" => {
+            // two allow-lists on the request's path: it must pass both, the outer one answers first
+            let (outer, inner) = (auth["outer"].as_u64().unwrap(), auth["inner"].as_u64().unwrap());
+            if sender == 0 {
+                Err((StatusCode::InternalServerError, vec![], None))
+            } else if sender <= 3 && outer & (1 << (sender - 1)) != 0 && inner & (1 << (sender - 1)) != 0 {
+                Ok(())
+            } else {
+                Err((StatusCode::NotFound, vec![], None))
+            }
+        }
         "accept_all" | "mutate_then_accept" => Ok(()),
         "reject_custom" => Err((StatusCode::TooManyRequests, b"go away".to_vec(), Some("nope".into()))),
         "reject_odd_senders" => {
@@ -122,6 +133,18 @@ fn build(auth: &Value, shared: &Arc<Mutex<Shared>>) -> Vec<Box<dyn FnMut(Request
             let mask = auth["mask"].as_u64().unwrap();
             let list: Vec<PeerId> = (0..3).filter(|i| mask & (1 << i) != 0).map(|i| ids()[i]).collect();
             clones!(RequireAuthorizationLayer::new(AllowedPeers::new(list)))
+        }
+        "nested_allowed_peers" => {
+            let list = |mask: u64| -> Vec<PeerId> { (0..3).filter(|i| mask & (1 << i) != 0).map(|i| ids()[i]).collect() };
+            let outer = RequireAuthorizationLayer::new(AllowedPeers::new(list(auth["outer"].as_u64().unwrap())));
+            let inner_layer = RequireAuthorizationLayer::new(AllowedPeers::new(list(auth["inner"].as_u64().unwrap())));
+            let s = outer.layer(inner_layer.layer(inner.clone()));
+            let (mut a, mut b, mut c) = (s.clone(), s.clone(), outer.layer(inner_layer.layer(inner.clone())));
+            vec![
+                Box::new(move |r| Box::pin(a.call(r)) as Fut) as Box<dyn FnMut(Request<Bytes>) -> Fut>,
+                Box::new(move |r| Box::pin(b.call(r)) as Fut),
+                Box::new(move |r| Box::pin(c.call(r)) as Fut),
+            ]
         }
         "accept_all" => clones!(RequireAuthorizationLayer::new(|_r: &mut Request<Bytes>| -> Result<(), Response<Bytes>> { Ok(()) })),
         "mutate_then_accept" => clones!(RequireAuthorizationLayer::new(|r: &mut Request<Bytes>| -> Result<(), Response<Bytes>> {
@@ -248,7 +271,7 @@ impl Check for C20 {
         CheckMeta {
             property: "C20",
             level: "model_checking",
-            rule: "authorizers: AllowedPeers over every subset of 3 identities, accept-all, reject-with-custom-response, reject-by-sender, mutate-then-accept; request sequences: every sequence of 1-3 (quick) / 1-4 (thorough) senders from {no identity, 3 identities, a 4th} dispatched round-robin over 3 instances of the layered service (two clones + one built again from the layer); every poll order and every completion order; the inner service counts invocations when `call` is made; states = executions, transitions = requests; distinct = distinct accept/refuse shapes".into(),
+            rule: "authorizers: AllowedPeers over every subset of 3 identities, 14 pairs of nested AllowedPeers layers (outer list around inner list), accept-all, reject-with-custom-response, reject-by-sender, mutate-then-accept; request sequences: every sequence of 1-3 (quick) / 1-4 (thorough) senders from {no identity, 3 identities, a 4th} dispatched round-robin over 3 instances of the layered service (two clones + one built again from the layer); every poll order and every completion order; the inner service counts invocations when `call` is made; states = executions, transitions = requests; distinct = distinct accept/refuse shapes".into(),
             assumptions: vec!["hand-driven executor; the authorizers are synchronous, as the trait requires".into()],
             exhaustive: true,
         }
@@ -256,6 +279,9 @@ impl Check for C20 {
 
     fn units(&self, _tier: Tier) -> Vec<Value> {
         let mut u: Vec<Value> = (0..8).map(|m| json!({"kind":"allowed_peers","mask":m})).collect();
+        for (outer, inner) in [(7u64, 0u64), (7, 1), (7, 2), (7, 4), (7, 3), (7, 5), (7, 6), (7, 7), (3, 1), (3, 2), (5, 4), (1, 2), (2, 1), (6, 3)] {
+            u.push(json!({"kind":"nested_allowed_peers","outer":outer,"inner":inner}));
+        }
         for k in ["accept_all", "mutate_then_accept", "reject_custom", "reject_odd_senders"] {
             u.push(json!({"kind":k}));
         }
